@@ -1164,6 +1164,9 @@ func condOp(lhs, rhs any, lhsT, rhsT ast.DType, op ast.Op) (any, ast.DType, erro
 			if dtype == ast.Float {
 				return cast.ToFloat64(lhs) == cast.ToFloat64(rhs), ast.Bool, nil
 			}
+			if lhsT != ast.Float && rhsT != ast.Float {
+				return cast.ToInt64(lhs) == cast.ToInt64(rhs), ast.Bool, nil
+			}
 			return cast.ToFloat64(lhs) == cast.ToFloat64(rhs), ast.Bool, nil
 		case ast.String:
 			if rhsT != ast.String {
@@ -1190,6 +1193,9 @@ func condOp(lhs, rhs any, lhsT, rhsT ast.DType, op ast.Op) (any, ast.DType, erro
 			dtype := typePromotion(lhsT, rhsT)
 			if dtype == ast.Float {
 				return cast.ToFloat64(lhs) != cast.ToFloat64(rhs), ast.Bool, nil
+			}
+			if lhsT != ast.Float && rhsT != ast.Float {
+				return cast.ToInt64(lhs) != cast.ToInt64(rhs), ast.Bool, nil
 			}
 			return cast.ToFloat64(lhs) != cast.ToFloat64(rhs), ast.Bool, nil
 		case ast.String:
